@@ -101,6 +101,11 @@ class Findings(object):
 # --------------------------------------------------------------------------
 # the run object (counters + evidence)
 
+class Multi(list):
+    """a case that consists of several executions: list of distinctness keys of the non-trivial ones (+ .evals = executions run)"""
+    evals = 1
+
+
 class Run(object):
     def __init__(self, prop, level, rule, tier=None, seed=None, assumptions=()):
         self.prop = prop
@@ -128,13 +133,21 @@ class Run(object):
     def note(self, case, nontrivial_key=None, classes=(), size=None):
         """record one executed case. nontrivial_key: None (trivial) or a
         hashable 'distinctness' key"""
-        self.evaluations += 1
+        self.evaluations += nontrivial_key.evals if isinstance(nontrivial_key, Multi) else 1
         for c in classes:
             self.classes[c] += 1
+        if isinstance(nontrivial_key, Multi) and not nontrivial_key:
+            nontrivial_key = None
         if nontrivial_key is not None:
-            h = case_hash(nontrivial_key)
-            new = h not in self.nontrivial
-            self.nontrivial.add(h)
+            if isinstance(nontrivial_key, Multi):
+                hs = [case_hash(x) for x in nontrivial_key]
+                new = any(h not in self.nontrivial for h in hs)
+                self.nontrivial.update(hs)
+                h = hs[0]
+            else:
+                h = case_hash(nontrivial_key)
+                new = h not in self.nontrivial
+                self.nontrivial.add(h)
             if new and len(self.samples) < 4 and (len(self.nontrivial) in (1, 7, 40, 150)):
                 self.samples.append(case)
             sz = size if size is not None else len(json.dumps(case, default=repr))
